@@ -381,3 +381,44 @@ def h_priority(hi_first, sh_lo, sh_hi, blocker):
     if hi_fits:
         check(w.reports(hi)['started'] == 1, 'higher priority task fits the '
               'released cores but was not started')
+
+
+# ------------------------------------------------------------------------------
+# a release collected in the same loop pass as a new arrival is not forgotten
+#
+@obligation(params={'s1': (0, 2), 's2': (0, 2), 'first': (0, 1), 'rsh': (0, 1)},
+            timeout={'quick': 300, 'thorough': 600},
+            funcs=FUNCS,
+            bounds='1 node x 4 cores; task R fills the pilot (2x2 or 1x4); T1 '
+                   '(1x1 / 1x2 / 2x1) arrives and waits; then T2 (same shapes) '
+                   'arrives and R completes before the loop runs again (either '
+                   'queueing order): both are in the queues of one loop pass')
+def h_release_in_busy_pass(s1, s2, first, rsh):
+    """the pilot drains: everything that waits and fits is started"""
+    s1, s2, first, rsh = conc(s1, 0, 2), conc(s2, 0, 2), conc(first, 0, 1), \
+                         conc(rsh, 0, 1)
+    shp = [(1, 1), (1, 2), (2, 1)]
+    w = World(1, 4)
+    def put(uid, r, c, prio=0):
+        t = S.mk_task(uid, ranks=r, cpr=c, priority=prio)
+        w.tasks[uid] = t
+        w.n += 1
+        w.s._queue_sched.put(([t], w.s._SCHEDULE))
+    put('t0', *[(2, 2), (1, 4)][rsh])
+    w.settle()
+    check(w.free() == [0], 'setup: pilot not full: %s', w.free())
+    put('t1', *shp[s1])
+    w.settle()
+    check(w.waiting('t1') == 1, 'setup: t1 must wait')
+    if first == 0:
+        put('t2', *shp[s2]); w.complete(0)
+    else:
+        w.complete(0); put('t2', *shp[s2])
+    w.settle()
+    reach()
+    trace('advanced', w.s.advanced, 'free', w.free())
+    for uid in ('t1', 't2'):
+        check(w.reports(uid)['started'] == 1, '%s was never started although '
+              'the pilot is idle and it fits (free cores %s, waiting: %s)',
+              uid, w.free(), w.waiting(uid))
+    w.quiescent_checks()
